@@ -1243,6 +1243,13 @@ class Interp:
 
     def getattr(self, obj, name, default=MISSING):
         r = self._getattr(obj, name)
+        if r is MISSING and isinstance(obj, VObj) and getattr(obj, 'pending_init', None) is not None:
+            # an object a contract built field by field: private state the real constructor would have set as well (a cache, a counter
+            # ...) is taken, on first need, from a scratch instance made by the real __init__ from the same values
+            complete = obj.pending_init
+            obj.pending_init = None
+            complete(self, obj)
+            r = self._getattr(obj, name)
         if r is MISSING:
             if default is not MISSING:
                 return default
